@@ -62,13 +62,24 @@ class Report:
         self.configs = []
         self.assumptions = []
         self.extra = {}
+        self.alias = None
+        self.only_configs = None
         self.explanation = ""
         self.trusted_base = []
 
     def rule(self, name, floor, desc):
+        if self.alias and name.startswith(self.alias[0]):
+            # a rule of another property's module run as a dependency of this one
+            name = self.alias[1] + name[len(self.alias[0]):]
         r = Rule(self, name, floor, desc)
         self.rules.append(r)
         return r
+
+    def cfgs(self, configs):
+        """Configurations to analyse: all of the module's, or the subset a depending property asked for."""
+        if self.only_configs is None:
+            return list(configs)
+        return [c for c in configs if c in self.only_configs]
 
     def finish(self):
         known = load_known()
